@@ -73,6 +73,11 @@ def _crosshair():
         from crosshair.tracers import NoTracing, ResumedTracing
 
         _wrap_solver()
+        # Never replace a call by an uninterpreted "proxy return" (CrossHair does this probabilistically
+        # for functions that carry contracts, e.g. its own model of hash()): always execute the real callee.
+        import crosshair.core as _core
+
+        _core.consider_shortcircuit = lambda *a, **k: None
         _CH.update(
             analyze_function=analyze_function,
             run_checkables=run_checkables,
